@@ -6,7 +6,6 @@ import linecache
 import os
 import re
 import shutil
-import sys
 import tempfile
 
 # fragment alphabet fixed by DESIGN.md (C04 / C20)
